@@ -20,6 +20,7 @@ pub struct Ledger {
     pub wakes: [AtomicU32; 8],
     pub events: Mutex<Vec<String>>,
     allocs: Mutex<Vec<usize>>,
+    shared_allocs: Mutex<Vec<usize>>,
 }
 
 impl Ledger {
@@ -29,6 +30,11 @@ impl Ledger {
         for p in v {
             // SAFETY: registered by `make`, freed exactly once here.
             drop(unsafe { Box::from_raw(p as *mut WakerData) });
+        }
+        let v = std::mem::take(&mut *self.shared_allocs.lock().unwrap_or_else(|e| e.into_inner()));
+        for p in v {
+            // SAFETY: registered by `waker_shared`, freed exactly once here.
+            drop(unsafe { Box::from_raw(p as *mut SharedWakerData) });
         }
     }
 
@@ -199,4 +205,91 @@ static VTABLE: RawWakerVTable = RawWakerVTable::new(
 pub fn waker(id: usize, ledger: &Arc<Ledger>, model: bool, callback: Option<WakerCallback>) -> Waker {
     // SAFETY: the vtable functions uphold the RawWaker contract (data is leaked, thread-safe).
     unsafe { Waker::from_raw(RawWaker::new(make(id, ledger, model, callback, true), &VTABLE)) }
+}
+
+// ------------------------------------------------------------------------------------------------
+// wakers whose clones share one identity (like an `Arc`-based executor waker): `will_wake` is true
+// between a waker and its clones, which is what "re-poll with the same waker" means to the event
+
+struct SharedWakerData {
+    id: usize,
+    ledger: Arc<Ledger>,
+    /// live handles to this identity (root + clones)
+    live: AtomicU32,
+    callback: Option<WakerCallback>,
+}
+
+fn shared<'a>(p: *const ()) -> &'a SharedWakerData {
+    // SAFETY: allocated by `waker_shared`, kept until `Ledger::free_wakers`.
+    unsafe { &*(p as *const SharedWakerData) }
+}
+
+fn shared_consume(d: &SharedWakerData) {
+    let mut cur = d.live.load(Ordering::Relaxed);
+    loop {
+        if cur == 0 {
+            d.ledger.waker_double_consume.fetch_add(1, Ordering::Relaxed);
+            return;
+        }
+        match d.live.compare_exchange(cur, cur - 1, Ordering::Relaxed, Ordering::Relaxed) {
+            Ok(_) => break,
+            Err(c) => cur = c,
+        }
+    }
+}
+
+static SHARED_VTABLE: RawWakerVTable = RawWakerVTable::new(
+    |p| {
+        let d = shared(p);
+        if d.live.fetch_add(1, Ordering::Relaxed) == 0 {
+            d.ledger.waker_double_consume.fetch_add(1, Ordering::Relaxed);
+        }
+        d.ledger.waker_clones.fetch_add(1, Ordering::Relaxed);
+        if let Some(cb) = &d.callback {
+            cb(WakerEvent::Clone, d.id);
+        }
+        RawWaker::new(p, &SHARED_VTABLE)
+    },
+    |p| {
+        let d = shared(p);
+        shared_consume(d);
+        d.ledger.waker_consumed.fetch_add(1, Ordering::Relaxed);
+        d.ledger.wakes[d.id % 8].fetch_add(1, Ordering::Relaxed);
+        if let Some(cb) = &d.callback {
+            cb(WakerEvent::Wake, d.id);
+        }
+    },
+    |p| {
+        let d = shared(p);
+        if d.live.load(Ordering::Relaxed) == 0 {
+            d.ledger.waker_double_consume.fetch_add(1, Ordering::Relaxed);
+        }
+        d.ledger.wakes[d.id % 8].fetch_add(1, Ordering::Relaxed);
+        if let Some(cb) = &d.callback {
+            cb(WakerEvent::WakeByRef, d.id);
+        }
+    },
+    |p| {
+        let d = shared(p);
+        shared_consume(d);
+        d.ledger.waker_consumed.fetch_add(1, Ordering::Relaxed);
+        if let Some(cb) = &d.callback {
+            cb(WakerEvent::Drop, d.id);
+        }
+    },
+);
+
+/// A root waker with identity `id` whose clones compare equal to it under `will_wake`.
+/// The root handle itself counts as one clone that the harness consumes by dropping it.
+pub fn waker_shared(id: usize, ledger: &Arc<Ledger>, callback: Option<WakerCallback>) -> Waker {
+    let p = Box::into_raw(Box::new(SharedWakerData {
+        id,
+        ledger: Arc::clone(ledger),
+        live: AtomicU32::new(1),
+        callback,
+    }));
+    ledger.waker_clones.fetch_add(1, Ordering::Relaxed);
+    ledger.shared_allocs.lock().unwrap_or_else(|e| e.into_inner()).push(p as usize);
+    // SAFETY: the vtable functions uphold the RawWaker contract; data is freed by free_wakers.
+    unsafe { Waker::from_raw(RawWaker::new(p as *const (), &SHARED_VTABLE)) }
 }
